@@ -1,5 +1,5 @@
 SPECIFICATION Spec
-CONSTANTS PairSrc = "all" CtxU = "tiny" MaxFlow = 3 KeyU = "five"
+CONSTANTS PairSrc = "all" CtxU = "tiny" MaxFlow = 2 KeyU = "five"
 INVARIANT IsPartition
 INVARIANT PartitionExact
 INVARIANT OrderPreserved
